@@ -170,6 +170,11 @@ func MakeSecretConnection(conn io.ReadWriteCloser, locPrivKey crypto.PrivKey) (*
 	if _, ok := remPubKey.(ed25519.PubKey); !ok {
 		return nil, fmt.Errorf("expected ed25519 pubkey, got %T", remPubKey)
 	}
+	// A signature made of public constants verifies under a small order key
+	// (for the neutral element: over every message), so such a key proves nothing.
+	if hasSmallOrder(remPubKey.Bytes()) {
+		return nil, ErrSmallOrderRemotePubKey
+	}
 	if !remPubKey.VerifySignature(challenge[:], remSignature) {
 		return nil, errors.New("challenge verification failed")
 	}
@@ -444,6 +449,49 @@ func shareAuthSignature(sc io.ReadWriter, pubKey crypto.PubKey, signature []byte
 
 	var _recvMsg = trs.FirstValue().(authSigMessage)
 	return _recvMsg, nil
+}
+
+// smallOrderPoints holds the y coordinates (little-endian, sign bit cleared) of
+// the eight points of small order on edwards25519, including the two
+// non-canonical encodings y = p and y = p+1 that decoders accept.
+var smallOrderPoints = [7][32]byte{
+	// 0 (order 4)
+	{},
+	// 1 (order 1, the neutral element)
+	{0x01},
+	// 2707385501144840649318225287225658788936804267575313519463743609750303402022 (order 8)
+	{0x26, 0xe8, 0x95, 0x8f, 0xc2, 0xb2, 0x27, 0xb0, 0x45, 0xc3, 0xf4, 0x89, 0xf2, 0xef, 0x98, 0xf0,
+		0xd5, 0xdf, 0xac, 0x05, 0xd3, 0xc6, 0x33, 0x39, 0xb1, 0x38, 0x02, 0x88, 0x6d, 0x53, 0xfc, 0x05},
+	// 55188659117513257062467267217118295137698188065244968500265048394206261417927 (order 8)
+	{0xc7, 0x17, 0x6a, 0x70, 0x3d, 0x4d, 0xd8, 0x4f, 0xba, 0x3c, 0x0b, 0x76, 0x0d, 0x10, 0x67, 0x0f,
+		0x2a, 0x20, 0x53, 0xfa, 0x2c, 0x39, 0xcc, 0xc6, 0x4e, 0xc7, 0xfd, 0x77, 0x92, 0xac, 0x03, 0x7a},
+	// p-1 (order 2)
+	{0xec, 0xff, 0xff, 0xff, 0xff, 0xff, 0xff, 0xff, 0xff, 0xff, 0xff, 0xff, 0xff, 0xff, 0xff, 0xff,
+		0xff, 0xff, 0xff, 0xff, 0xff, 0xff, 0xff, 0xff, 0xff, 0xff, 0xff, 0xff, 0xff, 0xff, 0xff, 0x7f},
+	// p (=0, order 4)
+	{0xed, 0xff, 0xff, 0xff, 0xff, 0xff, 0xff, 0xff, 0xff, 0xff, 0xff, 0xff, 0xff, 0xff, 0xff, 0xff,
+		0xff, 0xff, 0xff, 0xff, 0xff, 0xff, 0xff, 0xff, 0xff, 0xff, 0xff, 0xff, 0xff, 0xff, 0xff, 0x7f},
+	// p+1 (=1, order 1)
+	{0xee, 0xff, 0xff, 0xff, 0xff, 0xff, 0xff, 0xff, 0xff, 0xff, 0xff, 0xff, 0xff, 0xff, 0xff, 0xff,
+		0xff, 0xff, 0xff, 0xff, 0xff, 0xff, 0xff, 0xff, 0xff, 0xff, 0xff, 0xff, 0xff, 0xff, 0xff, 0x7f},
+}
+
+// hasSmallOrder reports whether the ed25519 public key encodes a point of small
+// order. Nobody holds a private key for such a point, yet signatures built from
+// public constants verify under it, so it must not be accepted as an identity.
+func hasSmallOrder(pubKey []byte) bool {
+	if len(pubKey) != ed25519.PubKeySize {
+		return false
+	}
+	var y [32]byte
+	copy(y[:], pubKey)
+	y[31] &= 0x7f // the top bit is the sign of x
+	for i := range smallOrderPoints {
+		if y == smallOrderPoints[i] {
+			return true
+		}
+	}
+	return false
 }
 
 //--------------------------------------------------------------------------------
